@@ -14,7 +14,9 @@ RULE = ("Samplers: generated axis-aligned boxes (dimension 1-5; unit / centred /
         "spheres and balls with centre components and radius log-uniform in 1e-3..1e3 (plus centre 0, radius 1); polylines "
         "(path / cycle / tree / graph / disjoint segments on 2-12 distinct vertices, planar or not, scaled 1e-3..1e3 and shifted) "
         "and well-shaped triangulated surfaces (vlib.gen_surface.well_shaped_trisurf, scaled and shifted) x count 0-400 x "
-        "array / point-cloud x normals; two statistical sub-checks with 4000 draws (edge/face shares; radial law of the ball). "
+        "array / point-cloud x normals; three statistical sub-checks with 4000 draws each and few cases (edge shares by length, face shares "
+        "by area on radially stretched surfaces, radial law of the ball). Categories, flags and magnitudes come from a PRNG seeded "
+        "by the first drawn integer of the case (Hypothesis' own choices starve the non-default classes), sizes are ordinary draws. "
         "Bezier: control nets with integer or log-uniform coordinates, degree 0-6 (curves) and (0-4)x(0-4) (patches) in 2-D/3-D, "
         "parameters inside [0,1] (incl. 0, 1) and outside (incl. 1e-9 beyond, nan, inf), export resolutions 2-9 (n1, n2 drawn "
         "independently). numpy.random is seeded from the case. non-trivial = box differs from the unit cube and n>0 / "
@@ -27,7 +29,10 @@ ASSUMPTIONS = [
     "statistical sub-checks: a sample is attributed to the edge/face it lies on; criterion = exact two-sided binomial tail >= 1e-8/(2m) per element "
     "(m elements; the sound form of the 6-sigma rule, false-alarm probability < 1e-8 per case)",
     "stat_ball_radial grounds on the docstring 'Samples points uniformly inside a 3D ball' (the property text itself only demands containment)",
-    "polylines have >= 1 edge, pairwise distinct vertices; surfaces are triangulated with min angle >= 8 degrees",
+    "polylines have >= 1 edge, pairwise distinct vertices; surfaces are triangulated with min angle >= 8 degrees (>= 3 degrees after the "
+    "stretch of stat_share_surface) and >= 1 face",
+    "box:uniform-spread (>= 100 uniform draws span at least half of every side; false-alarm probability < 1e-27) grounds on the docstring "
+    "'uniformly at random inside' the box; the property text itself only demands containment",
 ]
 
 EPS = 2.0 ** -52
@@ -494,6 +499,8 @@ def stat_case(draw, kind):
         p = draw(polylines(rnd, min_edges=2))
     else:
         p = draw(scaled_trisurf(rnd, max_faces=40))
+        if len(p["F"]) < 2:                   # a share test needs two faces: split the single triangle at its centroid
+            p["V"], p["F"] = G.op_tri_1to3(p["V"], p["F"], 0)
         if rnd.random() < 0.7:
             # unequal face areas: stretch radially about the centroid by a factor 1/3 .. 3 growing along a drawn direction
             V = np.array(p["V"], dtype=float)
